@@ -316,6 +316,18 @@ func describeConstArg(call ssa.CallInstruction) string {
 // codecMethodReaching: the Encode / Decode method of a registered codec type from which fn is
 // reached, when there is exactly one such codec type (the smallest name wins among its methods).
 func (c *Ctx) codecMethodReaching(e *Eff, fn *ssa.Function) *ssa.Function {
+	// a closure belongs to the method it is written in, whoever ends up calling it
+	outer := fn
+	for outer.Parent() != nil {
+		outer = outer.Parent()
+	}
+	if outer != fn {
+		for _, m := range append(append([]*ssa.Function{}, e.EP.CodecEnc...), e.EP.CodecDec...) {
+			if m == outer {
+				return m
+			}
+		}
+	}
 	var cands []*ssa.Function
 	for _, m := range append(append([]*ssa.Function{}, e.EP.CodecEnc...), e.EP.CodecDec...) {
 		if m == fn || c.P.Reachable([]*ssa.Function{m})[fn] {
